@@ -1320,6 +1320,17 @@ class BaseLoss(object):
                        method=method,
                        callback=callback)
 
+        # the optimiser gives no guarantee once the objective is undefined
+        # (nan) at one of its trial points: never hand back something worse
+        # than the initial guess
+        f0 = self.cost(x)
+        if np.isfinite(f0) and not (res['fun'] <= f0):
+            res['x'] = np.array(x, dtype=float)
+            res['fun'] = f0
+            res['success'] = False
+            res['message'] = ("search ended above the initial cost; " +
+                              "returning the initial guess")
+
         if full_output:
             return res['x'], res
         else:
